@@ -4,7 +4,8 @@
 -/
 import Mux.Proofs.RWLock
 import Mux.Spec.Defs
-import Mux.Ties
+import Mux.Ties.C06
+import Mux.Ties.C07
 namespace Mux.Conc
 open Mux Mux.RWLock
 
